@@ -169,19 +169,22 @@ def run_case(c):
                 if e2 > tol * gs and e2 > est:
                     bad("group_velocity", "group velocity (%s) differs from grad nu by %.3e (h) / %.3e (h/2), scale %.3e at q=%s" % (mode, e1, e2, gs, np.round(q, 4).tolist()),
                         mode=mode, **feat)
-        # the model changes after group velocities have been computed (masses x t: every frequency and every velocity scales by 1/sqrt(t) exactly)
-        gv_before = np.array(ph.get_group_velocity_at_q(qs[0]))
-        f_before = np.array(ph.get_frequencies(qs[0]))
-        t_m = 1.7
-        ph.masses = np.array(ph.masses) * t_m
-        gv_after = np.array(ph.get_group_velocity_at_q(qs[0]))
-        f_after = np.array(ph.get_frequencies(qs[0]))
-        obs["n_gv_after_model_change"] = obs.get("n_gv_after_model_change", 0) + 1
-        if np.abs(f_after - f_before / np.sqrt(t_m)).max() < 1e-9 * max(np.abs(f_before).max(), 1e-12):
-            if np.abs(gv_after - gv_before / np.sqrt(t_m)).max() > 1e-8 * max(np.abs(gv_before).max(), 1e-12):
-                bad("group_velocity_stale", "after the masses were multiplied by %.1f the frequencies scale by 1/sqrt(t) but the group velocities at q=%s do not (max deviation %.3e of %.3e)" % (
-                    t_m, np.round(qs[0], 4).tolist(), np.abs(gv_after - gv_before / np.sqrt(t_m)).max(), np.abs(gv_before).max()), **feat)
-        ph.masses = np.array(ph.masses) / t_m
+        # the model changes after group velocities have been computed (force constants x s: every frequency and every velocity scales by sqrt(s)
+        # exactly; without NAC, whose term does not scale with the force constants)
+        if not c["nac"]:
+            gv_before = np.array(ph.get_group_velocity_at_q(qs[0]))
+            f_before = np.array(ph.get_frequencies(qs[0]))
+            s_m = 1.44
+            fc_keep = np.array(ph.force_constants).copy()
+            ph.force_constants = fc_keep * s_m
+            gv_after = np.array(ph.get_group_velocity_at_q(qs[0]))
+            f_after = np.array(ph.get_frequencies(qs[0]))
+            obs["n_gv_after_model_change"] = obs.get("n_gv_after_model_change", 0) + 1
+            if np.abs(f_after - f_before * np.sqrt(s_m)).max() < 1e-9 * max(np.abs(f_before).max(), 1e-12):
+                if np.abs(gv_after - gv_before * np.sqrt(s_m)).max() > 1e-8 * max(np.abs(gv_before).max(), 1e-12):
+                    bad("group_velocity_stale", "after the force constants were multiplied by %.2f the frequencies scale by sqrt(s) but the group velocities at q=%s do not (max deviation %.3e of %.3e)" % (
+                        s_m, np.round(qs[0], 4).tolist(), np.abs(gv_after - gv_before * np.sqrt(s_m)).max(), np.abs(gv_before).max()), **feat)
+            ph.force_constants = fc_keep
         # the same through the band-structure route with band connection (modes re-ordered along the path): the velocity reported in slot b must be
         # the gradient of the frequency reported in slot b - reference: the (frequency, velocity) pairs of the single-q route at the same q
         path = np.array([qs[0] + t * (qs[1] - qs[0]) for t in np.linspace(0, 1, 9)])
